@@ -5,7 +5,7 @@ P="$1"; ID="$2"; TIER="${3:-quick}"
 cd /repo || exit 9
 git diff --quiet || { echo "/repo not clean"; exit 9; }
 git apply "$P" || { echo "patch does not apply"; exit 9; }
-cd /verif && ./check "$ID" --tier "$TIER" > /tmp/try_seed_$ID.log 2>&1; RC=$?
+cd /verif && timeout 1500 ./check "$ID" --tier "$TIER" > /tmp/try_seed_$ID.log 2>&1; RC=$?
 cd /repo && git checkout -- . && git status --short | grep -v '^??' | head -3
 echo "check $ID on $(basename $(dirname $P))/$(basename $P): exit $RC"
 grep -E "VIOLATION|KNOWN|INCONCLUSIVE|role=|unsupported x" /tmp/try_seed_$ID.log | cut -c1-400 | head -8
